@@ -184,6 +184,20 @@ fn strs(v: Vec<String>) -> PrimitiveValue {
 /// a value valid for `vr` (never a sequence); a single string is as often a `Str` as a one-element `Strs`
 pub fn gen_value(r: &mut Rng, vr: VR) -> PrimitiveValue {
     let v = gen_value0(r, vr);
+    // multi-valued text with EMPTY components (legal: `\\AXIAL`, `A\\\\B`), most often the first one
+    let v = match v {
+        PrimitiveValue::Strs(mut s)
+            if s.len() >= 2 && matches!(vr, VR::AE | VR::CS | VR::LO | VR::SH | VR::PN | VR::UI | VR::UC) && r.chance(1, 4) =>
+        {
+            let k = if r.chance(1, 2) { 0 } else { r.usize(0, s.len() - 2) };
+            s[k] = String::new();
+            if r.chance(1, 3) && s.len() >= 3 {
+                s[1] = String::new();
+            }
+            PrimitiveValue::Strs(s)
+        }
+        v => v,
+    };
     match v {
         PrimitiveValue::Strs(ref s) if s.len() == 1 && r.chance(1, 2) => PrimitiveValue::Str(s[0].clone()),
         v => v,
